@@ -33,7 +33,7 @@ pub fn build_ruleset_with(env: &J, rules: Vec<Rule>) -> Result<Built, String> {
             if i == 0 {
                 b = b.with_function(modelfn_from_model(f, log.clone())?).map_err(|e| format!("with_function: {e}"))?;
             } else {
-                boxed.push(Box::new(modelfn_from_model(f, log.clone())?));
+                boxed.push(boxed_fn(f, log.clone())?);
             }
         }
         if !boxed.is_empty() {
@@ -146,7 +146,18 @@ pub fn replay_prog(case: &J, rep: &mut Report) {
             }
         }
     };
-    let verdict = matches(&case["x"], &obs).and_then(|_| calls_match(&case["calls"], &built.log));
+    let mut verdict = matches(&case["x"], &obs).and_then(|_| calls_match(&case["calls"], &built.log));
+    // a program that invokes no user function: the SAME ruleset evaluated once more gives the same outcome
+    if verdict.is_ok() && case["calls"].as_array().map(|a| a.is_empty()).unwrap_or(false) {
+        let again = match block_on(built.ruleset.evaluate_value(&input)) {
+            Err(p) => Obs::Panic(p),
+            Ok(Err(err)) => classify(&err),
+            Ok(Ok(mut outs)) if outs.len() == 1 => match outs.remove(0).value { Ok(v) => Obs::Ok(v), Err(e) => classify(&e) },
+            Ok(Ok(outs)) => Obs::Panic(format!("{} outcomes for one rule", outs.len())),
+        };
+        rep.evaluations += 1;
+        verdict = matches(&case["x"], &again).map_err(|w| format!("second evaluation of the same ruleset: {w}")).and_then(|_| calls_match(&case["calls"], &built.log));
+    }
     match verdict {
         Ok(()) => rep.case_ok(true, || json!({"program": e.to_string(), "outcome": obs_to_model(&obs), "invocations": built.log.to_model()})),
         Err(why) if why.starts_with("TOOL:") => rep.tool_error(why),
@@ -248,7 +259,7 @@ fn run_builder(case: &J, log: &Arc<Log>) -> Result<Result<(RuleSet, Vec<Rule>), 
                         Err(e) => return Ok(Err(format!("with_function refused: {e}"))),
                     };
                 } else {
-                    boxed.push(Box::new(modelfn_from_model(f, log.clone())?));
+                    boxed.push(boxed_fn(f, log.clone())?);
                 }
             }
             if !boxed.is_empty() {
@@ -536,7 +547,11 @@ pub fn replay_session(case: &J, rep: &mut Report) {
         Ok(t) => t,
         Err(e) => return rep.tool_error(format!("term: {e}")),
     };
-    let res = block_on(rs.evaluate(&term));
+    // the input object is re-used in place: a decoy first, then the real data in the same variable
+    let mut slot = crate::ser::Term::Str("decoy".to_string());
+    let _ = block_on(rs.evaluate(&slot));
+    slot = term;
+    let res = block_on(rs.evaluate(&slot));
     let verdict = match (res, kind) {
         (Err(p), _) => Err(format!("RuleSet::evaluate panicked: {p}")),
         (Ok(Err(e)), "ser") => match classify(&e) {
